@@ -51,13 +51,19 @@ def load_case(ctx, k, cfgs):
     rng = ctx.subrng('load', k)
     r = rng.random()
     if r < 0.30:
-        data, kind, src = cfggen.random_cfg(rng), 'generated', 'cfggen'
+        import xml.etree.ElementTree as ET
+        root = ET.fromstring(cfggen.random_cfg(rng))
+        for x in cfggen.sanitize(root):
+            ctx.count('generator_exclusions_applied(finding)', x)
+        data, kind, src = cfggen.to_bytes(root), 'generated', 'cfggen'
     else:
         path = rng.choice(cfgs)
         src = os.path.basename(path)
         root = cfggen.subset_of_shipped(rng, path)
         if r < 0.75:
             kinds = cfggen.structure_mutant(rng, root)
+            for x in cfggen.sanitize(root):
+                ctx.count('generator_exclusions_applied(finding)', x)
             data, kind = cfggen.to_bytes(root), 'structure-mutant'
         else:
             data, kinds = mutate.mutate_bytes(rng, cfggen.to_bytes(root))
